@@ -1,6 +1,6 @@
 (* Correspondence cases for C10: one constructor per matcher; every case carries the input and
    the OBSERVED implementation output, [agree10] recomputes the output with the model. *)
-From KV Require Export Res.Image Res.Selector Res.Replica Res.Replacement Base.RegexParse.
+From KV Require Export Res.Image Res.Selector Res.Replica Res.Replacement Res.PatchSelect Base.RegexParse.
 From KV Require Import Corr.C14.   (* oclass_eqb, mism_from *)
 
 Definition cs_of (l : list gvk) : gvk -> bool := fun g => existsb (gvk_eqb g) l.
@@ -51,6 +51,8 @@ Inductive case10 :=
          (cls : oclass) (after marked : node) (nhits : nat)
 (* the default images / replicas field specs at run time: the same entries as the translated tables *)
 | KFsTab (img rep : list fieldspec)
+(* PatchTransformer (targeted or by-name strategic-merge entry adding a fresh annotation): the indices of the resources that changed *)
+| KPatch (tab : ptab) (cs : list gvk) (e : patch_entry) (docs : list node) (cls : oclass) (changed : list nat)
 (* replacement.Filter *)
 | KRepl (tab : ptab) (ns : list string) (cs : list gvk) (rps : list replacement) (docs : list node)
         (cls : oclass) (after : list node).
@@ -103,6 +105,8 @@ Definition agree10 (c : case10) : bool :=
   | KReplica rp docs cls after =>
       agree_res nodes_eqb (replica_transform rp gen_replicas_fs docs) cls after
   | KFsTab img rep => same_entries img gen_images_fs && same_entries rep gen_replicas_fs
+  | KPatch tab cs e docs cls changed =>
+      agree_res nats_eqb (patch_targets (parse_of tab) (cs_of cs) simple_lsel e docs) cls changed
   | KSplit path obs => strs_eqb (smarter_path_splitter "."%char path) obs
   | KMatch tab ns create path doc cls after marked nhits =>
       match pm (parse_of tab) enc10 (nonstr_of ns) create corr_fuel path doc with
